@@ -482,7 +482,8 @@ def main(ctx):
             if om:
                 why = {1: 'an emitted ip route command is refused by the kernel table (route present / absent)',
                        2: 'executing the emitted ip route commands does not yield the target routes',
-                       3: 'a destination routed before and after loses its route at an intermediate step'}[om]
+                       3: 'a destination routed before and after loses its route at an intermediate step',
+                       4: 'an address covered by a route before and after is not covered at an intermediate step'}[om]
                 rep['oracle'] = 'Linux.Check.oracle_routes = %d: %s' % (om, why)
                 failing.append(dict(what=why, replay=rep, finding=None, key='routes%d' % om))
             elif r['rc'] == 0 and has_msg == m['expect_equal']:
